@@ -92,3 +92,167 @@ func init() {
 		return out
 	}
 }
+
+func raycastLemmaJobs() []Job {
+	var out []Job
+	for _, h := range []string{"H_K_Raycast", "H_K_CrossLemma"} {
+		out = append(out, Job{Pkg: "geometry", Harness: h, Timeout: 120, Scale: true, Note: "lemma relied on by contract-mode jobs"})
+	}
+	return out
+}
+
+func init() {
+	propMeta["C01"] = PropMeta{
+		Bounds: map[string]interface{}{
+			"quick":    "rings n = 3..8 (closed/unclosed, any vertex sequence incl. self-intersecting, repeated, collinear), index kinds none/R-tree/quadtree built at n = 4, 8 (single-node compressed trees; writer and reader executed) and below/at/above the MinPoints threshold; polygon 4+3 and 5+4+3 (two holes); lines of 2..6 points; rect; point; object level: Point/SimplePoint x Polygon/Rect/LineString x bare/Feature; ALL real coordinates, Raycast replaced by its contract (K1/K2 proved in the same run)",
+			"thorough": "rings up to n = 16 (R-tree) and 32 (quadtree), polygon 8+4+3, lines up to 12 points; otherwise as quick",
+		},
+		Outside:     []string{"multi-node index trees (covered structurally by C04 with scaled node constants)", "rings larger than the bound", "coordinates outside the float-exact domain", "composite harness with Raycast inlined: z3 does not decide n = 3 within 6 min, so the composition is only checked through the contract"},
+		Stubs:       []string{"Segment.Raycast -> spec_Segment_Raycast (contract; proved by H_K_Raycast in the same command)", "per-edge lemma instances sCrossLemma assumed in composite harnesses (proved by H_K_CrossLemma in the same command)", "encoding/binary little-endian accessors modelled on byte cells", "math.Inf exact"},
+		Assumptions: commonAssumptions,
+	}
+	jobTables["C01"] = func(tier string) []Job {
+		out := raycastLemmaJobs()
+		c := []string{fnRaycast}
+		ring := func(n, closing, kind, minPts int) {
+			out = append(out, Job{Pkg: "geometry", Harness: "H_Member_Ring", Params: []int{n, closing, kind, minPts}, Timeout: 120, Scale: true, Contracts: c, NoCover: n > 6})
+		}
+		maxN := 8
+		if tier == "thorough" {
+			maxN = 12
+		}
+		for n := 3; n <= maxN; n++ {
+			for closing := 0; closing <= 1; closing++ {
+				ring(n, closing, 0, 0)
+			}
+		}
+		for _, n := range []int{4, 8} {
+			for kind := 1; kind <= 2; kind++ {
+				ring(n, 0, kind, 1)   // index built
+				ring(n, 1, kind, n+1) // at threshold (n+1 points with closing vertex)
+				ring(n, 0, kind, n+1) // below threshold: no index
+			}
+		}
+		if tier == "thorough" {
+			ring(16, 1, 1, 1)
+			ring(16, 0, 2, 1)
+			ring(32, 1, 2, 1)
+			ring(16, 0, 0, 0)
+		}
+		poly := func(n, m, closing, kind, minPts, m2 int) {
+			out = append(out, Job{Pkg: "geometry", Harness: "H_Member_Poly", Params: []int{n, m, closing, kind, minPts, m2}, Timeout: 120, Scale: true, Contracts: c, NoCover: n > 5})
+		}
+		poly(4, 3, 1, 0, 0, 0)
+		poly(4, 3, 0, 0, 0, 0)
+		poly(5, 4, 1, 0, 0, 3)
+		poly(5, 4, 1, 2, 1, 3)
+		poly(5, 4, 1, 1, 1, 3)
+		poly(4, 0, 1, 0, 0, 0)
+		if tier == "thorough" {
+			poly(8, 4, 1, 2, 1, 3)
+			poly(8, 4, 0, 1, 1, 3)
+		}
+		maxL := 6
+		if tier == "thorough" {
+			maxL = 12
+		}
+		for n := 1; n <= maxL; n++ {
+			out = append(out, Job{Pkg: "geometry", Harness: "H_Member_Line", Params: []int{n, 0, 0}, Timeout: 120, Scale: true, Contracts: c, NoCover: n > 4})
+		}
+		for kind := 1; kind <= 2; kind++ {
+			out = append(out, Job{Pkg: "geometry", Harness: "H_Member_Line", Params: []int{5, kind, 1}, Timeout: 120, Scale: true, Contracts: c, NoCover: true})
+		}
+		out = append(out, Job{Pkg: "geometry", Harness: "H_Member_Rect", Timeout: 60})
+		for target := 0; target <= 2; target++ {
+			for wrap := 0; wrap <= 1; wrap++ {
+				for probe := 0; probe <= 1; probe++ {
+					out = append(out, Job{Pkg: "geojson", Harness: "H_Obj_PointMembership", Params: []int{4, target, wrap, probe, 0, 0}, Timeout: 60, Scale: true, Contracts: c, NoCover: wrap+probe > 0})
+				}
+			}
+		}
+		out = append(out, Job{Pkg: "geojson", Harness: "H_Obj_PointMembership", Params: []int{4, 0, 1, 0, 2, 1}, Timeout: 60, Scale: true, Contracts: c, NoCover: true})
+		return out
+	}
+}
+
+const pkgGeom = "github.com/tidwall/geojson/geometry"
+
+func searchShapeJobs(tier string) []Job {
+	var out []Job
+	nq := 3
+	if tier == "thorough" {
+		nq = 4
+	}
+	for n := 3; n <= nq+1; n++ {
+		for _, mode := range []int{0, 2} {
+			if mode == 2 && n > nq {
+				continue
+			}
+			out = append(out, Job{Pkg: "geometry", Harness: "H_Search", Params: []int{n, mode, 2, 1, 1}, Timeout: 60, Combine: true, Abstract: true,
+				Consts:    map[string]string{"geometry/qtree.go": "qMaxItems=2;qMaxDepth=2"},
+				ForkFuncs: []string{"(*" + pkgGeom + ".qNode).chooseQuad"},
+				Note:      "S-shape: quadtree with node constants scaled down (qMaxItems 32->2, qMaxDepth 16->2), every tree shape forked; midpoints arbitrary finite values"})
+		}
+	}
+	nr := 4
+	out = append(out, Job{Pkg: "geometry", Harness: "H_Search", Params: []int{nr, 0, 1, 1, 0}, Timeout: 60, Combine: true,
+		Consts:    map[string]string{"geometry/rtree.go": "rMaxEntries=2"},
+		ForkFuncs: []string{"(*" + pkgGeom + ".rRect).chooseLeastEnlargement"},
+		ForkIn:    []string{"(*" + pkgGeom + ".rRect).splitLargestAxisEdgeSnap", "(*" + pkgGeom + ".rRect).largestAxis"},
+		Note:      "S-shape: R-tree with rMaxEntries 16->2 (root split, height 1), split decisions forked"})
+	out = append(out, Job{Pkg: "geometry", Harness: "H_Search", Params: []int{3, 2, 1, 1, 0}, Timeout: 60, Combine: true,
+		Consts:    map[string]string{"geometry/rtree.go": "rMaxEntries=2"},
+		ForkFuncs: []string{"(*" + pkgGeom + ".rRect).chooseLeastEnlargement"},
+		ForkIn:    []string{"(*" + pkgGeom + ".rRect).splitLargestAxisEdgeSnap", "(*" + pkgGeom + ".rRect).largestAxis"},
+		Note:      "S-shape: R-tree with rMaxEntries 16->2, closed ring"})
+	return out
+}
+
+func init() {
+	propMeta["C04"] = PropMeta{
+		Bounds: map[string]interface{}{
+			"quick":    "L-num: ALL uint32 values and counts (bit-vectors); L-quad: ALL finite doubles with midpoints unconstrained; Search==filter with nondeterministic stop and ANY non-NaN query rectangle (infinities included): series of 0..8 points, open / closed / closed with repeated point, no index and single-node compressed R-tree and quadtree (real constants), threshold below/at/above; moved series n = 4; multi-node trees with node constants scaled down by a source overlay regenerated from the current qtree.go/rtree.go: quadtree (2 items, depth 2) on 3..4 points, every tree shape; R-tree (2 entries) on 3..4 points",
+			"thorough": "series up to 16 points (R-tree) / 32 (quadtree) single node; quadtree shapes on 5 points",
+		},
+		Outside:     []string{"multi-node trees with the real constants (more than 32 / 16 segments) symbolically: covered only through the scaled-constant configurations", "4-byte item encodings (> 65535 segments): covered by L-num only", "order-independence of the predicates under permuted report order (not built)"},
+		Stubs:       []string{"encoding/binary little-endian accessors modelled on byte cells; float bytes re-assembled only in matching order (anything else aborts the job as inconclusive)", "abstract-float jobs: + - * / return arbitrary finite values (no overflow assumed)"},
+		Assumptions: commonAssumptions,
+	}
+	jobTables["C04"] = func(tier string) []Job {
+		var out []Job
+		out = append(out, Job{Pkg: "geometry", Harness: "H_Num_RoundTrip", Timeout: 60})
+		out = append(out, Job{Pkg: "geometry", Harness: "H_Quad_Lemma", Params: []int{1}, Timeout: 60, Abstract: true})
+		maxN := 6
+		if tier == "thorough" {
+			maxN = 10
+		}
+		for n := 0; n <= maxN; n++ {
+			for mode := 0; mode <= 2; mode++ {
+				out = append(out, Job{Pkg: "geometry", Harness: "H_Search", Params: []int{n, mode, 0, 0, 0}, Timeout: 60, Combine: true, NoCover: n > 4})
+			}
+		}
+		for kind := 1; kind <= 2; kind++ {
+			for _, n := range []int{2, 5, 8} {
+				for mode := 0; mode <= 2; mode++ {
+					out = append(out, Job{Pkg: "geometry", Harness: "H_Search", Params: []int{n, mode, kind, 1, 0}, Timeout: 60, Combine: true, NoCover: n > 5})
+				}
+			}
+			out = append(out, Job{Pkg: "geometry", Harness: "H_Search", Params: []int{4, 0, kind, 4, 0}, Timeout: 60, Combine: true, NoCover: true}) // at threshold
+			out = append(out, Job{Pkg: "geometry", Harness: "H_Search", Params: []int{4, 0, kind, 5, 0}, Timeout: 60, Combine: true, NoCover: true}) // below threshold
+			for mode := 0; mode <= 2; mode++ {
+				out = append(out, Job{Pkg: "geometry", Harness: "H_Search_Moved", Params: []int{4, mode, kind, 1}, Timeout: 60, Combine: true, NoCover: mode > 0})
+			}
+			if tier == "thorough" {
+				n := 16
+				if kind == 2 {
+					n = 32
+				}
+				out = append(out, Job{Pkg: "geometry", Harness: "H_Search", Params: []int{n, 0, kind, 1, 0}, Timeout: 300, Combine: true, NoCover: true})
+				out = append(out, Job{Pkg: "geometry", Harness: "H_Search", Params: []int{n - 1, 2, kind, 1, 0}, Timeout: 300, Combine: true, NoCover: true})
+			}
+		}
+		out = append(out, Job{Pkg: "geometry", Harness: "H_Search_Moved", Params: []int{4, 2, 0, 0}, Timeout: 60, Combine: true, NoCover: true})
+		out = append(out, searchShapeJobs(tier)...)
+		return out
+	}
+}
